@@ -28,14 +28,14 @@ use vls_persist::kvv::{JsonFormat, KVVPersister};
 
 pub struct C08FeeRestart;
 
-fn services(persister: Arc<dyn Persist>, clock: Arc<ManualClock>, limit: u64, ty: &str) -> NodeServices {
+fn services(persister: Arc<dyn Persist>, clock: Arc<ManualClock>, limit: u64, ty: &str, onchain: bool) -> NodeServices {
     let mut policy = make_default_simple_policy(NET);
     policy.fee_velocity_control = VelocityControlSpec {
         limit_msat: limit,
         interval_type: if ty == "h" { VelocityControlIntervalType::Hourly } else { VelocityControlIntervalType::Daily },
     };
     NodeServices {
-        validator_factory: Arc::new(SimpleValidatorFactory::new_with_policy(policy)),
+        validator_factory: super::validator_factory(policy, onchain),
         starting_time_factory: make_genesis_starting_time_factory(NET),
         persister,
         clock,
@@ -74,7 +74,7 @@ impl Group for C08FeeRestart {
         let ty = *rng.pick(&["h", "d"]);
         let limit = *rng.pick(&[300_000_000u64, 250_000_000, 100_000_000, 1_000_000_000]);
         let bi: u64 = if ty == "h" { 300 } else { 3600 };
-        let mut ops = vec![format!("rnode {} {}", limit, ty)];
+        let mut ops = vec![format!("rnode {} {}{}", limit, ty, if rng.chance(1, 3) { " o" } else { "" })];
         let mut now = 1_700_000_000u64 + rng.below(10_000);
         let n = rng.range(4, if tier == Tier::Quick { 10 } else { 20 });
         for _ in 0..n {
@@ -95,15 +95,17 @@ impl Group for C08FeeRestart {
         let config = NodeConfig { network: NET, key_derivation_style: KeyDerivationStyle::Native, use_checkpoints: false, allow_deep_reorgs: false };
         let mut node: Option<Arc<Node>> = None;
         let mut spec: (u64, String) = (0, "d".into());
+        let mut onchain = false;
         let mut log: Vec<(u64, u64)> = vec![];
         let mut ctr: u32 = 0;
         let (mut signed_any, mut refused_any, mut restarted) = (false, false, false);
         for (i, op) in ops.iter().enumerate() {
             let t: Vec<&str> = op.split_whitespace().collect();
             let line = match t.as_slice() {
-                ["rnode", l, ty] => {
+                ["rnode", l, ty] | ["rnode", l, ty, _] => {
+                    onchain = t.get(3) == Some(&"o");
                     spec = (l.parse().unwrap_or(0), ty.to_string());
-                    let n = Arc::new(Node::new(config, &seed, vec![], services(persister.clone(), clock.clone(), spec.0, &spec.1)));
+                    let n = Arc::new(Node::new(config, &seed, vec![], services(persister.clone(), clock.clone(), spec.0, &spec.1, onchain)));
                     n.add_allowlist(&[]).unwrap();
                     persister.new_node(&n.get_id(), &config, &*n.get_state()).unwrap();
                     persister.new_tracker(&n.get_id(), &n.get_tracker()).unwrap();
@@ -115,7 +117,7 @@ impl Group for C08FeeRestart {
                     restarted = true;
                     drop(node.take());
                     let (node_id, entry) = persister.get_nodes().unwrap().into_iter().next().unwrap();
-                    match Node::restore_node(&node_id, entry, &seed, services(persister.clone(), clock.clone(), spec.0, &spec.1)) {
+                    match Node::restore_node(&node_id, entry, &seed, services(persister.clone(), clock.clone(), spec.0, &spec.1, onchain)) {
                         Ok(n) => { node = Some(n); "ok".to_string() }
                         Err(e) => format!("restore-failed {}", e.message()),
                     }
